@@ -47,7 +47,11 @@ class EEMSRead(Command):
             variable = dataset[variable_name]
             data = variable[:]
 
-        if self.get_argument_value("DataType", "Float") in ("Positive Integer", "Positive Float") and data.min() < 0:
+        # numpy.uint is the type behind "Positive Integer": a DataType given as that type is checked (and serialized) as such
+        is_positive = (
+            self.get_argument_value("DataType", "Float") in ("Positive Integer", "Positive Float") or data_type is numpy.uint
+        )
+        if is_positive and data.min() < 0:
             raise InvalidPositiveData(path, kwargs["DataType"], lineno=self.lineno)
 
         if numpy.issubdtype(data.dtype, numpy.float64) and data_type in (
